@@ -46,6 +46,13 @@ func RealBarrier(env *core.Env, rep *core.Report, rounds int) int {
 			// every other round the tasks share a named execution context with up / before / after /
 			// down hooks (and, for k >= 3, a task-level before and after hook): sharing a context must
 			// not serialise them either
+			if r%2 == 1 && k == 3 {
+				// interactive tasks (they get the runner's stdin) overlap like any others
+				t.Interactive = true
+				for _, st := range stages {
+					st.Task.Interactive = true
+				}
+			}
 			var opts []runner.Opts
 			hookLog := ""
 			withCtx := r%2 == 0
